@@ -248,13 +248,15 @@ def pts_equal_exact(got, want):
     return True
 
 
-def pts_close(got, want, rel=1e-9):
+def pts_close(got, want, rel=1e-9, scale=None):
+    """scale: size of the data the value was computed from (a value that is small by cancellation is only accurate
+    relative to its operands)"""
     if isinstance(got, np.ndarray) and got.ndim == 0:
         got = got.item()
     g = got if isinstance(got, (list, tuple, np.ndarray)) else (got,)
     if len(g) != len(want):
         return False
-    scale = max([1.0] + [abs(float(y)) for y in want])
+    scale = max([1.0, scale or 0.0] + [abs(float(y)) for y in want])
     for x, y in zip(g, want):
         try:
             xf = float(x)
